@@ -113,3 +113,41 @@ Print Assumptions C20_7bit_ascii.
 Theorem C20_class_codec_ok : codec_ok hparse_c hgen_c.
 Proof. exact codec_c_ok. Qed.
 Print Assumptions C20_class_codec_ok.
+
+(* Envelope._msg_generator at header granularity (first attempt with policy SMTP,
+   on failure a second attempt with refold_source='none' on a FRESH buffer): for
+   every pair of fold functions and every header list, what is returned is every
+   stored header exactly once, in order, all rendered by one policy, then the blank
+   line - on the first-attempt path and on the fallback path; it raises only when
+   both policies cannot fold some header *)
+Theorem C20_fallback_no_duplication :
+  forall (src : Type) (fold1 fold2 : src -> option bytes) (hs : list src),
+  msg_generator src fold1 fold2 hs =
+  match render_all src fold1 hs with
+  | Some b => GenOk (b ++ CRLF)
+  | None => match render_all src fold2 hs with
+            | Some b => GenOk (b ++ CRLF)
+            | None => GenRaises
+            end
+  end.
+Proof. exact no_duplication. Qed.
+Print Assumptions C20_fallback_no_duplication.
+
+(* header blocks that may hold over-long lines (xwf_block: the class without the
+   78-byte bound), ASSUMING email's parser stores the fields of such a block
+   (parser_ok_x): the body is exact, and the generated header block is the fields as
+   email folds them when every fold succeeds, the fields as received (CRLF) when one
+   raises - never a field twice *)
+Theorem C20_fallback_flatten :
+  forall (hparse : bytes -> list field * option bytes) (fold_smtp : field -> option bytes),
+  parser_ok_x hparse ->
+  forall fs blank B sender rcpts, xwf_block fs = true -> blank_ok blank ->
+  let e := parse (list field) hparse sender rcpts (render fs ++ blank ++ B) in
+  e_message e = B /\ e_headers e = fs /\
+  msg_generator field fold_smtp (fun f => Some (fold_raw f)) (e_headers e) =
+    match render_all field fold_smtp fs with
+    | Some b => GenOk (b ++ CRLF)
+    | None => GenOk (render (hnorm_fields fs) ++ CRLF)
+    end.
+Proof. exact fallback_flatten. Qed.
+Print Assumptions C20_fallback_flatten.
